@@ -64,6 +64,23 @@ instance (me : Str) (sh : Str → Int) (pre : List Op) (e : Op) (obs : Obs) (unc
   unfold JudgeStep
   cases e <;> infer_instance
 
+/-- the upstream an entry-point op is about -/
+def Op.upstream : Op → Option Str
+  | .clusterUpdate u | .allocate u _ | .acquire u _ _ | .deleteCond _ u _ _ => some u
+  | _ => none
+
+/-- the shard a leader-election callback is about -/
+def Op.callbackShard : Op → Option Int
+  | .gain s | .newLeader s _ => some s
+  | _ => none
+
+/-- does `u` hash to `shard`? -/
+def inShard (shard n : Int) (u : Str) : Bool :=
+  match getShardID u n with
+  | .ok s => s == shard
+  | .error _ => false
+
+
 /-- `heldSince me h s`: since the server last took shard s (a `gain s`, or a leader check that found it
     leader), it has not been told it lost it (`lose s`), and every leader check since found it leader.
     A store for s can exist only then (`c13_hist_store_held`). -/
